@@ -115,6 +115,7 @@ def setup_engine(world, reg, qual) -> tuple[Engine, State, dict]:
     used = {n.id for n in ast.walk(fnode) if isinstance(n, ast.Name)}
     eng.freevars = (used - mine) & outer_bound
     eng.nonlocal_written = nonlocal_names(top.node)
+    eng.my_nonlocals = {n for st_ in fnode.body if isinstance(st_, ast.Nonlocal) for n in st_.names} if isinstance(getattr(fnode, "body", None), list) else set()
 
     st = State()
     st.heap = eng.fresh_heap("h0")
@@ -174,6 +175,12 @@ def setup_engine(world, reg, qual) -> tuple[Engine, State, dict]:
 
 def verify_function(world, reg, qual) -> dict:
     t0 = time.time()
+    if qual == "lemma:frame":
+        # the frame lemmas FR(I) / FR(G) used by contracts with frame_rule (calls.frame_lemmas): proved here, once per run
+        eng, _, _ = setup_engine(world, reg, "_utils.merge_config")
+        lem = eng.frame_lemmas()
+        return {"qual": qual, "file": None, "lines": None, "status": "ok", "obligations": list(reg._frame_obls),
+                "paths": {"return": 0, "raise": 0}, "nodes_translated": 0, "dropped": {}, "wall_s": time.time() - t0}
     fi = world.funcs.get(qual)
     res = {"qual": qual, "file": fi.file if fi else None, "obligations": [], "status": "ok",
            "lines": [fi.node.lineno, fi.node.end_lineno] if fi else None}
@@ -186,6 +193,7 @@ def verify_function(world, reg, qual) -> dict:
         F0 = Frame(eng, entry, entry, args)
         for (name, f) in spec.requires(F0):
             st0.assume(f)
+        st0.import_defs(entry)      # names the frame gave to entry heap components (e.g. alloc) keep their definitions
         spec.init_ghost(eng, st0)
         entry = st0.copy()
         # vacuity guard: the precondition must be satisfiable and must not prove False
